@@ -25,7 +25,7 @@ LEVEL_NOTE = ('Rows with tied chi^2 may come in any order; resolved-model remova
 RULE = ("cases: (mode, load variant, n_models, package permutation); executions: Fitter.fit on 7 sources built to produce ties/1e30/inf, one evaluation per row; "
         "non-trivial = distinct (case, source) whose result has >= 2 rows")
 ASSUMPTIONS = ["finite value alphabets", "ties may be ordered either way"]
-REQUIRED_CLASSES = ['ninety-trial-distances', 'grid-of-hundreds-of-models', 'tied-chi2-duplicates', 'chi2>=1e30', 'tied-at-1e30', 'chi2==2e30', 'resolved-removal-moves-best-distance', 'n_models==1', 'n_models==8', 'permuted-package',
+REQUIRED_CLASSES = ['single-known-distance', 'ninety-trial-distances', 'grid-of-hundreds-of-models', 'tied-chi2-duplicates', 'chi2>=1e30', 'tied-at-1e30', 'chi2==2e30', 'resolved-removal-moves-best-distance', 'n_models==1', 'n_models==8', 'permuted-package',
                     'mode-2d', 'mode-3d', 'float32-path', 'dead-model', 'near-tied-chi2']
 TIMEOUT = {'quick': 300, 'thorough': 1200}
 VARIANTS = [('v1', False), ('v2', True), ('v2', False)]
@@ -73,6 +73,9 @@ def setup(tier, seed):
     # scale: several thousand models (beyond 4096) in the distance-independent mode
     nhuge = 5000 if tier == 'quick' else 20000
     out.append({'mode': '2d', 'variant': 0, 'n': nhuge, 'perm': [(i * 7919 + 5) % nhuge for i in range(nhuge)]})
+    # a distance-dependent package fitted at ONE known distance (not 1 kpc)
+    for iv in (0, 1):
+        out.append({'mode': '3d', 'variant': iv, 'n': 5, 'perm': [4, 2, 0, 3, 1], 'single_distance': True})
     # scale: 90 trial distances (beyond 64) in the distance-dependent mode
     for iv in ((0, 1) if tier == 'quick' else (0, 1, 2)):
         for p in ([4, 2, 0, 3, 1], [0, 1, 2, 3, 4]):
@@ -146,6 +149,9 @@ def run_case(ctx, case, rec, d):
         spec = {'fmt': fmt, 'names': names, 'bands': BANDS, 'apertures': ap, 'tables': tphys[perm], 'logd_step': step}
         md = fc.build_package(d, 'pkg', spec)
         dmin, dmax = (0.2, 12.0) if case.get('fine') else (0.4, 6.0)
+        if case.get('single_distance'):
+            dmin = dmax = 1.7
+            rec.cls('single-known-distance')
         if case.get('fine'):
             rec.cls('ninety-trial-distances')
         dunit = ['kpc', 'pc', 'cm'][case['variant']]
@@ -158,7 +164,7 @@ def run_case(ctx, case, rec, d):
         logm3 = fitref.model_logflux_3d([tphys[perm][:, b, :] for b in range(len(BANDS))], [ap] * len(BANDS), [1.0] * len(BANDS), grid)
         logd = np.log10(grid)
         base = 10 ** (logm3[perm.index(0), len(grid) // 2, :] + 2.0 * k)
-    cfg = (mode, case['variant'], n, tuple(perm), bool(case.get('fine')))
+    cfg = (mode, case['variant'], n, tuple(perm), bool(case.get('fine')), bool(case.get('single_distance')))
     # ---- a model that emits nothing in one band (zero flux): it is outside the strict quantifier (positive fluxes) but must at least
     # end up behind every live model (chi^2 >= 1e30 or undefined), and must not disturb the other rows (differential oracle: the same package without it)
     if n in (3, 5) and mode == '2d':
